@@ -70,7 +70,8 @@ def plan(seed, subbatch):
         # the whole Hexital on a collapsing timeframe: the newest bucket is merged into between evaluations
         tf = world.pick_timeframe(cfg, base_s, 2.0, 4.0, allow_finer=False)
     return {"format": 1, "property": ID, "seed": seed, "subbatch": subbatch,
-            "config": {"fn": fn, "args": args, "base_s": base_s, "amorph_form": cfg.choice(("object", "dict")),
+            "config": {"prewarmed": sub_rng(seed, "prewarmed").random() < 0.15,
+                       "fn": fn, "args": args, "base_s": base_s, "amorph_form": cfg.choice(("object", "dict")),
                        "tf": tf},
             "ops": [{"op": "new", "preload": pre}] + ops + [{"op": "check"}], "fired": dict(fired)}
 
@@ -83,7 +84,13 @@ def _members(cfg, shared=None):
     if cfg.get("amorph_form") == "dict":
         members.append(shared if shared is not None else {"analysis": fn, "args": dict(args)})
     else:
-        members.append(build({"cls": "Amorph", "analysis": fn, "params": args, "common": {}}))
+        am = build({"cls": "Amorph", "analysis": fn, "params": args, "common": {}})
+        if cfg.get("prewarmed"):
+            # the wrapper has already been used on its own, over OTHER candles, before it joins the Hexital
+            # (a helper-less indicator may be moved like that: it adopts the Hexital's candles)
+            am.append(mk_candles([[1_600_000_000 + 60 * k, 50.0 + k % 3, 52.0 + k % 3, 49.0, 51.0 + (k % 2), 10 + k]
+                                  for k in range(14)]))
+        members.append(am)
     return members
 
 
